@@ -305,6 +305,10 @@ func ppValue(v slip.Object) (pv slip.Object) {
 				pv = slip.List{slip.Symbol("quote"), tv}
 			}
 		}
+	case *slip.Vector:
+		if hasUnreadable(tv) {
+			pv = tv.LoadForm()
+		}
 	case *slip.Package:
 		pv = slip.List{
 			slip.Symbol("find-package"),
@@ -322,8 +326,9 @@ func ppValue(v slip.Object) (pv slip.Object) {
 }
 
 // hasUnreadable returns true if the object, a list or an element of a list,
-// includes a hash-table or an instance. Those are not printed readably so the
-// list can not be written as a quoted literal.
+// includes a hash-table or an instance, which are not printed readably, or a
+// vector that is not adjustable or has a fill pointer, which the literal
+// #(...) does not tell. Such a value can not be written as a literal.
 func hasUnreadable(obj slip.Object) bool {
 	switch to := obj.(type) {
 	case slip.List:
@@ -336,6 +341,9 @@ func hasUnreadable(obj slip.Object) bool {
 		return hasUnreadable(to.Value)
 	case slip.HashTable, slip.Instance:
 		return true
+	case *slip.Vector:
+		// The reader makes an adjustable vector without a fill pointer.
+		return !to.Adjustable() || 0 <= to.FillPtr
 	}
 	return false
 }
